@@ -274,7 +274,8 @@ class RecordFieldRewriter:
                 if fname in exclude:
                     continue
                 field = descriptor.fields.get(fname, None)
-                if field:
+                # a field name given more than once is projected once
+                if field and (field.typename, field.name) not in desc_fields:
                     desc_fields.append((field.typename, field.name))
         else:
             desc_fields = [(ftype, fname) for (ftype, fname) in descriptor.get_field_tuples() if fname not in exclude]
